@@ -330,7 +330,7 @@ POINT_REQUEST = st.fixed_dictionaries({
 @st.composite
 def cases(draw):
     spec = draw(S.dataset_spec(max_vars=4, min_vars=2, max_extra=2,
-                               modes=("raw", "raw", "decoded", "dask"),
+                               modes=("raw", "raw", "decoded", "dask", "file"),
                                var_kwargs={"grid_required": False,
                                            "dtypes": ("f8", "f8", "f4", "i4", "i2", "M8")}))
     return {
